@@ -41,8 +41,8 @@ type simHalf struct {
 	consumed  int64
 	writes    []int    // size of every Write call, in order (for the man in the middle)
 	wlog      [][]byte // content of the first few Write calls (handshake transcript)
-	parkedW   int   // writers parked for space
-	parkedR   int   // readers parked for data
+	parkedW   int      // writers parked for space
+	parkedR   int      // readers parked for data
 }
 
 // SimConn is one endpoint of a SimLink; it implements net.Conn.
